@@ -218,7 +218,32 @@ var lagPreamble = []Op{
 	{K: opNext, H: 0, N: -1}, {K: opGC, N: 2},
 }
 
-var profC08 = Profile{Preambles: [][]Op{gcPreamble, freshIterPreamble, lagPreamble}, W: map[int]int{opBegin: 1, opInsert: 6, opModify: 1, opCAS: 2, opCAD: 2, opDelete: 7, opDeleteAll: 1, opCommit: 6, opAbort: 1, opChanges: 3, opNext: 6, opCloseIter: 2, opGC: 8}, GC: 100, FewKeys: true}
+// bigGraveyardPreamble: hundreds of objects are deleted in one transaction
+// while an iterator is registered; the iterator takes all of them in one
+// batch (or is closed instead), which is the last trigger the collector gets.
+func bigGraveyardPreamble(n int, closeIt bool) []Op {
+	ops := []Op{
+		{K: opChanges}, {K: opCommit},
+		{K: opBulkInsert, N: n}, {K: opCommit},
+		{K: opBulkDelete, N: n}, {K: opCommit},
+	}
+	if closeIt {
+		return append(ops, Op{K: opCloseIter})
+	}
+	return append(ops, Op{K: opNext, H: 0, N: -1})
+}
+
+// c08Preambles: the big graveyards are expensive (about 50 ms a case) and
+// make up about 3% of the cases.
+func c08Preambles() [][]Op {
+	var ps [][]Op
+	for i := 0; i < 16; i++ {
+		ps = append(ps, gcPreamble, freshIterPreamble, lagPreamble)
+	}
+	return append(ps, bigGraveyardPreamble(300, false), bigGraveyardPreamble(600, false), bigGraveyardPreamble(1100, true))
+}
+
+var profC08 = Profile{Preambles: c08Preambles(), W: map[int]int{opBegin: 1, opInsert: 6, opModify: 1, opCAS: 2, opCAD: 2, opDelete: 7, opDeleteAll: 1, opCommit: 6, opAbort: 1, opChanges: 3, opNext: 6, opCloseIter: 2, opGC: 8}, GC: 100, FewKeys: true}
 
 const ruleC08 = "histories over few keys (delete / re-insert / re-delete, also through Modify and rejected or successful compare-and-* operations) with 0-4 change iterators at arbitrary progress, Close, virtual-time advances, explicit collector triggers and a gate that parks the collector between its lock-free scan and its write transaction while further operations run; the graveyard worker runs inside a synctest bubble. Checked: the number of retained deletions is never below the deletions not yet handed to every open iterator and never above the deletions made while an iterator was registered (checked after every commit, abort and collector operation), lagging iterators still converge (C07 oracle), nothing is retained without iterators, and after all iterators caught up and 6 collection intervals passed the retained count is 0. Non-trivial = a collector round was released while iterators were open and deliveries happened; distinct by case encoding."
 
